@@ -87,6 +87,7 @@ pub fn run() -> Report {
             let wk = Worker::new(&root, w);
             // every other case with --verify: the checks it adds must see the de-obfuscated bytes too
             let verify = i % 2 == 1;
+            let verb = ((i / 2) % 4) as u8;
             let chain = if c.big { &big } else { &small };
             let plain_world = build_world(btc, &chain.blocks, 0, &c.layout);
             let mut xor_world = plain_world.clone();
@@ -103,7 +104,11 @@ pub fn run() -> Report {
             }
             let mut plain_obs = Vec::new();
             for cbn in &c.cbs {
-                let r = wk.run(&RunSpec::new("bitcoin", cbn).verify(verify));
+                let mut ps = RunSpec::new("bitcoin", cbn).verify(verify);
+                if !matches!(*cbn, "simplestats" | "opreturn") {
+                    ps.verbosity = verb;
+                }
+                let r = wk.run(&ps);
                 acc.transitions += 1;
                 if verify && r.code != Some(0) {
                     acc.count("note:plaintext-verify-run-failed", 1);
@@ -130,7 +135,10 @@ pub fn run() -> Report {
                 }
             }
             for (i, cbn) in c.cbs.iter().enumerate() {
-                let spec = RunSpec::new("bitcoin", cbn).verify(verify);
+                let mut spec = RunSpec::new("bitcoin", cbn).verify(verify);
+                if !matches!(*cbn, "simplestats" | "opreturn") {
+                    spec.verbosity = verb;
+                }
                 let r = wk.run(&spec);
                 acc.transitions += 1;
                 acc.count(if verify { "runs-with-verify" } else { "runs-without-verify" }, 1);
@@ -138,7 +146,9 @@ pub fn run() -> Report {
                 // (whether that common result is right is the business of C01/C07/C08/C15/C16)
                 let mut bad: Vec<Mismatch> = Vec::new();
                 let o = observe(&r, &wk.dir);
-                if o != plain_obs[i] {
+                // above the default verbosity the log itself mentions the key and the de-obfuscation: files and exit status only
+                let same = if spec.verbosity > 0 { o["files"] == plain_obs[i]["files"] && o["code"] == plain_obs[i]["code"] && o["signal"] == plain_obs[i]["signal"] } else { o == plain_obs[i] };
+                if !same {
                     let sig = if r.code != Some(0) { "run-failed" } else { "output-differs-from-plaintext-directory" };
                     bad.push((sig.into(), format!("xor run {} vs plaintext {}", o.to_string().chars().take(400).collect::<String>(), plain_obs[i].to_string().chars().take(400).collect::<String>())));
                 }
